@@ -215,6 +215,16 @@ def read_outputs(d, strip=True):
     return res
 
 
+def parse_fault(out, files=None):
+    """first parse error of the given generated files as (signature suffix, description) — a file the property talks about that
+    does not parse cannot satisfy the property either, so checks report this instead of silently skipping the case"""
+    from .checks.c01 import classify_error
+    for e in out.errors():
+        if files is None or e["file"] in files:
+            return ("%s %s" % (e["file"], classify_error(e)), "%s:%d:%d %s near %r | %s" % (e["file"], e["line"], e["col"], e["msg"], e["token"], e["text"]))
+    return None
+
+
 # ---------------------------------------------------------------- parallel map
 def pmap(func, items, workers=None, chunksize=1, desc=None):
     items = list(items)
